@@ -17,12 +17,32 @@
     (`C08_mass`), and the specification of a fragment (`cellSpec`: original probability / mass
     of the group) is a probability distribution (`C08_reweight`).
 
-  NOT proved (compared on every case by the harness instead): that `pcfgFrom` (the model of
-  `__pcfg_from__`) generates exactly `cellSpec` (it is evaluated and compared with `cellSpec`
-  on every group of every case); termination of the balancing loop, the number of fragments
-  and the returned ratio (floating point).
+  * the fragment grammar of a group (`pcfgFrom`, the model of `__pcfg_from__`; helper lemmas in
+    PS/Proofs/SplitterFrag1..11): for every group of valid, pairwise prefix-incomparable nodes
+    the erasure of the renaming is a bijection between the derivations of the fragment and the
+    derivations in the cells of the group's nodes (`C08_fragment_lang`: soundness, completeness,
+    injectivity = unambiguity); every derivation of the fragment has its original probability
+    divided by the mass of the group (`C08_fragment_prob`, hence the fragment realises `cellSpec`:
+    `C08_fragment_cellSpec`, `C08_group_mass`); the weight rows and the start weights of the
+    fragment sum to 1 (`C08_fragment_normalised`); `__pcfg_from__` does not fail on valid nodes
+    and its loop `while to_fill` terminates, with an explicit bound (`C08_fragment_fuel`);
+  * the hypotheses on the nodes are invariants of the node splitting and of every operation
+    trace (`C08_node_invariants`: valid, prefix-incomparable, probability = probability of the
+    derivation prefix, positive), so the fragment theorems hold for every group of the whole
+    pipeline (`C08_fragment_pipeline`).
+  Hypotheses on the grammar are decidable checks: `WF`, `tagsNorm` (every row of the weight table
+  sums to 1), `posW` (positive weights), and for `C08_fragment_normalised` also `closedG` /
+  `posRows` (every non-terminal that occurs has a non-empty row of positive weights).
+
+  NOT proved: termination of the balancing loop, the number of fragments and the returned ratio
+  (decided in floating point by the implementation; the operation trace is an input of the model),
+  and that the model is the Python code (correspondence is tested on every case by the harness).
 -/
 import PS.Proofs.Splitter
+import PS.Proofs.SplitterFrag9
+import PS.Proofs.SplitterFrag10
+import PS.Proofs.SplitterFrag11
+import PS.Proofs.SplitterFrag12
 namespace PS.Sp
 open PS PS.G
 
@@ -156,5 +176,221 @@ theorem finding_C08_F1_old_split_step_loses_a_node :
     (trySplit exG [([exNodeF, exNodeC], 1)] 0).map (fun pgs => (coverUpTo exG.g 5 (flat pgs), (flat pgs).length))
       = some (true, 3) := by
   decide +kernel
+
+/-! ### the fragment grammar of a group (`__pcfg_from__`) -/
+
+/-- **language of a fragment.**  `pcfgFrom` is the model of `__pcfg_from__`; its non-terminals are
+    copies `(type, (u, k))` of the original `(type, u)`, `er` forgets the number `k` and `erStep`
+    does so in a derivation step.  For every grammar, every group of valid, pairwise
+    prefix-incomparable nodes (`PrefixFree`: what a part of a cover is) and every fuel with which the
+    refilling loop `while to_fill` ran to completion (`fillDone`, see `C08_fragment_fuel`):
+    the erasure is a bijection between the derivations of the fragment and the derivations of the
+    original grammar that lie in the cell of a node of the group —
+    (1) every derivation of the fragment erases to a derivation of the original grammar in the cell
+        of some node of the group,
+    (2) every derivation in the cell of a node of the group is the erasure of a derivation of the
+        fragment,
+    (3) two derivations of the fragment with the same erasure are equal (the fragment is
+        unambiguous, given that its derivations are read as programs through the original ones). -/
+theorem C08_fragment_lang (pg : PUG U) (group : List (Node U)) (hv : ∀ n ∈ group, Valid pg.g n)
+    (hpf : PrefixFree group) (fuel : Nat) (frag : PUG (U × Nat))
+    (h : pcfgFrom pg group fuel = some frag) (hfuel : fillDone pg group fuel = true) :
+    (∀ X w', Deriv frag.g X w' →
+      Deriv pg.g (er X) (w'.map erStep) ∧ ∃ n ∈ group, Matches n (er X) (w'.map erStep)) ∧
+    (∀ n ∈ group, ∀ s w, Deriv pg.g s w → Matches n s w →
+      ∃ X w', Deriv frag.g X w' ∧ er X = s ∧ w'.map erStep = w) ∧
+    (∀ X1 w1 X2 w2, Deriv frag.g X1 w1 → Deriv frag.g X2 w2 → er X1 = er X2 →
+      w1.map erStep = w2.map erStep → X1 = X2 ∧ w1 = w2) := by
+  obtain ⟨st, hst, rfl, htf⟩ := pcfgFrom_some h hfuel
+  obtain ⟨L, stG, hf, _⟩ := facts_of_pcfgFrom hpf hst htf
+  refine ⟨?_, ?_, ?_⟩
+  · intro X w' hd
+    obtain ⟨n, hn, hm, hd'⟩ := frag_sound hf hv hd
+    exact ⟨hd', n, hn, hm⟩
+  · intro n hn s w hd hm
+    exact frag_complete hf hv hpf hn hd hm
+  · intro X1 w1 X2 w2 h1 h2 hX hw
+    exact frag_inj hf hpf h1 h2 hX hw
+
+/-- the nodes `f a ·` and `f b ·` of the example: same start symbol, same first rule, then they diverge -/
+def exNodeFa : Node Nat := ⟨3/8, [], exA, [sF, sA], [exS, exA], [[exA, exA], []]⟩
+def exNodeFb : Node Nat := ⟨3/8, [], exA, [sF, sB], [exS, exA], [[exA, exA], []]⟩
+
+example : (∀ n ∈ [exNodeFa, exNodeFb], Valid exG.g n) ∧ PrefixFree [exNodeFa, exNodeFb] ∧
+    (pcfgFrom exG [exNodeFa, exNodeFb] 10).isSome = true ∧ fillDone exG [exNodeFa, exNodeFb] 10 = true := by
+  refine ⟨?_, ?_, by decide +kernel, by decide +kernel⟩
+  · intro n hn
+    simp only [List.mem_cons, List.not_mem_nil, or_false] at hn
+    rcases hn with rfl | rfl <;> (unfold Valid; decide +kernel)
+  · unfold PrefixFree; decide +kernel
+/-- the fragment of `[f a ·, f b ·]` has the 4 derivations `f a a, f a b, f b a, f b b` -/
+example : ((pcfgFrom exG [exNodeFa, exNodeFb] 10).map (fun fr => (derivations fr.g 6).length)) = some 4 := by
+  decide +kernel
+
+/-- **probabilities in a fragment.**  Under the hypotheses of `C08_fragment_lang`, if moreover every
+    row of the weight table of the original grammar sums to 1 (`tagsNorm`: the grammar is
+    normalised), the probability carried by every node of the group is the probability of its
+    derivation prefix (`C08_node_prob`: an invariant of the node splitting) and is positive, then
+    every derivation of the fragment has, in the fragment (start weight × rule weights after
+    `normalise`), its original probability divided by the mass of the group (the sum of the
+    probabilities of its nodes, i.e. the total original probability of the fragment's programs,
+    `C08_mass`). -/
+theorem C08_fragment_prob (pg : PUG U) (group : List (Node U)) (hpf : PrefixFree group) (hn : tagsNorm pg = true)
+    (hprob : ∀ n ∈ group, n.prob = derivProb pg n.start n.steps) (hpos : ∀ n ∈ group, 0 < n.prob)
+    (fuel : Nat) (frag : PUG (U × Nat))
+    (h : pcfgFrom pg group fuel = some frag) (hfuel : fillDone pg group fuel = true)
+    (X : UNT (U × Nat)) (w' : List (Step (U × Nat))) (hd : Deriv frag.g X w') :
+    derivProb frag X w' = derivProb pg (er X) (w'.map erStep) / (group.map (·.prob)).sum := by
+  obtain ⟨st, hst, rfl, htf⟩ := pcfgFrom_some h hfuel
+  obtain ⟨L, stG, hf, hi, hsp, hpr⟩ := facts_of_pcfgFrom hpf hst htf
+  exact frag_prob hf hi hsp hpr hpf hn hprob hpos hd
+
+example : tagsNorm exG = true ∧ (∀ n ∈ [exNodeFa, exNodeFb], n.prob = derivProb exG n.start n.steps ∧ 0 < n.prob) := by
+  decide +kernel
+/-- the four derivations of the fragment of `[f a ·, f b ·]` (mass 3/4) have probability
+    (3/4 · 1/2 · 1/2) / (3/4) = 1/4 each -/
+example : ((pcfgFrom exG [exNodeFa, exNodeFb] 10).map (fun fr =>
+    (derivations fr.g 6).map (fun d => derivProb fr d.1 d.2))) = some [1/4, 1/4, 1/4, 1/4] := by
+  decide +kernel
+
+/-- **`__pcfg_from__` returns, and `while to_fill` terminates**: on valid nodes the construction
+    does not fail (no `assert`, no `IndexError`), and from some fuel on (explicitly: `fillBound`,
+    at most `|to_fill| + (|to_fill| + R) · (R + 1)` iterations, `R` the number of non-terminal
+    occurrences on right-hand sides) the refilling loop of the model runs to completion, so that the
+    hypothesis `fillDone` of the theorems above is satisfiable for every input. -/
+theorem C08_fragment_fuel (pg : PUG U) (group : List (Node U)) (hv : ∀ n ∈ group, Valid pg.g n) :
+    ∃ fuel0, ∀ fuel, fuel0 ≤ fuel →
+      (pcfgFrom pg group fuel).isSome = true ∧ fillDone pg group fuel = true :=
+  pcfgFrom_total pg group hv
+
+example : ∃ fuel0, ∀ fuel, fuel0 ≤ fuel → (pcfgFrom exG [exNodeFa, exNodeFb] fuel).isSome = true ∧
+    fillDone exG [exNodeFa, exNodeFb] fuel = true := by
+  apply C08_fragment_fuel
+  intro n hn
+  simp only [List.mem_cons, List.not_mem_nil, or_false] at hn
+  rcases hn with rfl | rfl <;> (unfold Valid; decide +kernel)
+
+/-- **the nodes of every group of the pipeline satisfy the hypotheses of the fragment theorems**
+    (`NodesOK`): for every well-formed grammar with positive weights (`posW`), every quantity and
+    every operation trace of the balancing loop, the nodes of every group are valid, pairwise
+    prefix-incomparable, carry the probability of their derivation prefix, and it is positive. -/
+theorem C08_node_invariants (pg : PUG U) (hw : WF pg = true) (hp : posW pg = true) (splits fuel : Nat)
+    (hs : 0 < splits) (nodes : List (Node U)) (trace : List Op) (pgs' : PG U)
+    (h1 : splitUntil pg splits fuel (startNodes pg) = some nodes)
+    (h2 : applyTrace pg (initGroups nodes splits) trace = some pgs') :
+    ∀ g ∈ pgs', (∀ n ∈ g.1, Valid pg.g n ∧ n.prob = derivProb pg n.start n.steps ∧ 0 < n.prob) ∧ PrefixFree g.1 :=
+  groups_ok (WF_sound hw) hp splits fuel hs nodes trace pgs' h1 h2
+
+example : posW exG = true := by decide +kernel
+
+/-- **the fragments of the whole pipeline**: for every well-formed, normalised grammar with positive
+    weights, every number of fragments and every operation trace of the balancing loop, the fragment
+    built for any of the resulting groups generates (up to the renaming of the non-terminals)
+    exactly the derivations of the cells of the group's nodes, each exactly once, with its
+    original probability divided by the mass of the group. -/
+theorem C08_fragment_pipeline (pg : PUG U) (hw : WF pg = true) (hn : tagsNorm pg = true) (hp : posW pg = true)
+    (splits fuel : Nat) (hs : 0 < splits) (nodes : List (Node U)) (trace : List Op) (pgs' : PG U)
+    (h1 : splitUntil pg splits fuel (startNodes pg) = some nodes)
+    (h2 : applyTrace pg (initGroups nodes splits) trace = some pgs')
+    (g : List (Node U) × Rat) (hg : g ∈ pgs') (fuel' : Nat) (frag : PUG (U × Nat))
+    (h : pcfgFrom pg g.1 fuel' = some frag) (hfuel : fillDone pg g.1 fuel' = true) :
+    (∀ X w', Deriv frag.g X w' →
+      Deriv pg.g (er X) (w'.map erStep) ∧ (∃ n ∈ g.1, Matches n (er X) (w'.map erStep)) ∧
+      derivProb frag X w' = derivProb pg (er X) (w'.map erStep) / (g.1.map (·.prob)).sum) ∧
+    (∀ n ∈ g.1, ∀ s w, Deriv pg.g s w → Matches n s w →
+      ∃ X w', Deriv frag.g X w' ∧ er X = s ∧ w'.map erStep = w) ∧
+    (∀ X1 w1 X2 w2, Deriv frag.g X1 w1 → Deriv frag.g X2 w2 → er X1 = er X2 →
+      w1.map erStep = w2.map erStep → X1 = X2 ∧ w1 = w2) := by
+  obtain ⟨hok, hpf⟩ := C08_node_invariants pg hw hp splits fuel hs nodes trace pgs' h1 h2 g hg
+  obtain ⟨l1, l2, l3⟩ := C08_fragment_lang pg g.1 (fun n hn => (hok n hn).1) hpf fuel' frag h hfuel
+  refine ⟨?_, l2, l3⟩
+  intro X w' hd
+  obtain ⟨a, b⟩ := l1 X w' hd
+  exact ⟨a, b, C08_fragment_prob pg g.1 hpf hn (fun n hn => (hok n hn).2.1) (fun n hn => (hok n hn).2.2)
+    fuel' frag h hfuel X w' hd⟩
+
+/-- the pipeline on the example: 3 nodes in 2 groups, both fragments are built and refilled -/
+example : ((splitUntil exG 3 10 (startNodes exG)).bind (fun ns => applyTrace exG (initGroups ns 2) [])).map
+    (fun pgs => pgs.map (fun g => (g.1.length, (pcfgFrom exG g.1 10).isSome, fillDone exG g.1 10)))
+    = some [(1, true, true), (2, true, true)] := by
+  decide +kernel
+
+/-- when the bound `k` is large enough for the continuations of the nodes to have their full mass
+    (`tailMass … = 1`: every continuation has at most `k` steps and the grammar is normalised),
+    the mass of the cells of a group is the sum of the probabilities of its nodes -/
+theorem C08_group_mass (pg : PUG U) (k : Nat) (group : List (Node U))
+    (hprob : ∀ n ∈ group, n.prob = derivProb pg n.start n.steps)
+    (hk : ∀ n ∈ group, tailMass pg k n.config = 1) :
+    ((group.flatMap (cell pg.g k)).map (fun d => derivProb pg d.1 d.2)).sum = (group.map (·.prob)).sum := by
+  induction group with
+  | nil => rfl
+  | cons n r ih =>
+    simp only [List.flatMap_cons, List.map_append, List.sum_append, List.map_cons, List.sum_cons]
+    rw [ih (fun m hm => hprob m (List.mem_cons_of_mem _ hm)) (fun m hm => hk m (List.mem_cons_of_mem _ hm)),
+      C08_mass, hk n (by simp), hprob n (by simp), Rat.mul_one]
+    rfl
+
+/-- **the fragment realises `cellSpec`** (the specification the harness compares the fragments of
+    the implementation with): a derivation of the fragment has the probability that `cellSpec`
+    lists for its erasure -/
+theorem C08_fragment_cellSpec (pg : PUG U) (group : List (Node U)) (hpf : PrefixFree group) (hn : tagsNorm pg = true)
+    (hprob : ∀ n ∈ group, n.prob = derivProb pg n.start n.steps) (hpos : ∀ n ∈ group, 0 < n.prob)
+    (fuel : Nat) (frag : PUG (U × Nat))
+    (h : pcfgFrom pg group fuel = some frag) (hfuel : fillDone pg group fuel = true)
+    (k : Nat) (hk : ∀ n ∈ group, tailMass pg k n.config = 1)
+    (e : (UNT U × List (Step U)) × Rat) (he : e ∈ cellSpec pg k group)
+    (X : UNT (U × Nat)) (w' : List (Step (U × Nat))) (hd : Deriv frag.g X w')
+    (hX : e.1 = (er X, w'.map erStep)) : derivProb frag X w' = e.2 := by
+  rw [C08_fragment_prob pg group hpf hn hprob hpos fuel frag h hfuel X w' hd]
+  simp only [cellSpec, List.mem_map] at he
+  obtain ⟨d, _, rfl⟩ := he
+  simp only at hX ⊢
+  rw [C08_group_mass pg k group hprob hk, hX]
+
+example : ∀ n ∈ [exNodeFa, exNodeFb], tailMass exG 5 n.config = 1 := by decide +kernel
+example : (cellSpec exG 5 [exNodeFa, exNodeFb]).map (·.2) = [1/4, 1/4, 1/4, 1/4] := by decide +kernel
+
+/-- **the fragment is normalised**: if every non-terminal that occurs in the original grammar
+    (start symbols, right-hand sides) has a non-empty row of positive weights (`closedG`,
+    `posRows`: decidable), then every row of the weight table of the fragment sums to 1 (the
+    fragment satisfies the hypothesis `tagsNorm` under which `C08_fragment_prob` was stated for the
+    original grammar) and so do its start weights. -/
+theorem C08_fragment_normalised (pg : PUG U) (hp : posRows pg = true) (hcl : closedG pg = true)
+    (group : List (Node U)) (hne : group ≠ []) (hv : ∀ n ∈ group, Valid pg.g n) (hpf : PrefixFree group)
+    (hpos : ∀ n ∈ group, 0 < n.prob) (fuel : Nat) (frag : PUG (U × Nat))
+    (h : pcfgFrom pg group fuel = some frag) (hfuel : fillDone pg group fuel = true) :
+    tagsNorm frag = true ∧ (frag.startTags.map (·.2)).sum = 1 := by
+  obtain ⟨st, hst, rfl, htf⟩ := pcfgFrom_some h hfuel
+  refine ⟨frag_tagsNorm hp hcl (fun n hn => ⟨hv n hn, hpos n hn⟩) hst, ?_⟩
+  obtain ⟨L, stG, hf, hi, hsp, _⟩ := facts_of_pcfgFrom hpf hst htf
+  apply frag_starts_sum
+  rw [hsp, hi.spTot]
+  have hmm : L.map (fun l => l.n.prob) = group.map (·.prob) := by rw [← hf.lays, List.map_map]; rfl
+  rw [hmm]
+  cases group with
+  | nil => exact absurd rfl hne
+  | cons n r =>
+    have := sum_pos_of_mem (fun n : Node U => n.prob) (n :: r) hpos n (by simp)
+    intro h0
+    rw [h0] at this
+    exact absurd this (by decide)
+
+example : posRows exG = true ∧ closedG exG = true := by decide +kernel
+/-- the fragment of `[f a ·, f b ·]` is normalised, also in the sense of `normalised` (sums over the
+    alternatives of the rule table, what the driver evaluates on every case) -/
+example : ((pcfgFrom exG [exNodeFa, exNodeFb] 10).map (fun fr => (tagsNorm fr, normalised fr, WF fr))) =
+    some (true, true, true) := by decide +kernel
+
+omit [DecidableEq U] in
+/-- the erasure does not change the program of a derivation (its pre-order word of symbols with
+    arities, what the driver's `wordOf` prints): the bijection of `C08_fragment_lang` is a bijection
+    between the programs of the fragment and the programs of the cells of the group -/
+theorem C08_fragment_program (w' : List (Step (U × Nat))) :
+    (w'.map erStep).map (fun st => (st.2.1, st.2.2.length)) = w'.map (fun st => (st.2.1, st.2.2.length)) := by
+  simp [erStep, Function.comp_def]
+
+example : ((pcfgFrom exG [exNodeFa, exNodeFb] 10).map (fun fr =>
+    (derivations fr.g 6).map (fun d => d.2.map (fun st => st.2.1.name)))) =
+    some [["f", "a", "a"], ["f", "a", "b"], ["f", "b", "a"], ["f", "b", "b"]] := by decide +kernel
 
 end PS.Sp
